@@ -826,8 +826,22 @@ pub fn run_c26(ctx: &Ctx) -> i32 {
     });
     // around the cap
     let cap = 1usize << 20;
-    for len in [cap - 8, cap, cap + 8, cap + 1, cap - 1] {
-        let bytes = vec![0x5au8; len];
+    // long inputs: besides acceptance, the hash must still be the sponge over the injective limb map of the WHOLE input
+    // (lengths around every power of two up to the cap, so that any internal segmentation threshold is crossed)
+    let mut long_lens: Vec<usize> = vec![cap - 8, cap, cap + 8, cap + 1, cap - 1];
+    for sh in 12..20usize {
+        long_lens.extend_from_slice(&[(1 << sh) - 8, 1 << sh, (1 << sh) + 8]);
+    }
+    long_lens.extend_from_slice(&[3 * (1 << 16) + 16, 5 * (1 << 17) + 8]);
+    let mut lrng = ctx.rng("long");
+    for len in long_lens {
+        let mut bytes = vec![0x5au8; len];
+        // random canonical limbs (not a constant fill: a segmented hash of equal segments could coincide)
+        for c in bytes.chunks_mut(8) {
+            if c.len() == 8 {
+                c.copy_from_slice(&lrng.gen_range(0..P).to_le_bytes());
+            }
+        }
         rep.eval();
         rep.nontrivial(&("cap", len));
         let before = heapmon::thread_allocated();
@@ -839,6 +853,11 @@ pub fn run_c26(ctx: &Ctx) -> i32 {
                 let want = len <= cap && len % 8 == 0;
                 if r.is_ok() != want {
                     rep.violation(&format!("compact-hash / cap got={} want={}", r.is_ok(), want), &format!("compact hash at len {len}"), json!({"len": len}));
+                } else if let Ok(hh) = r {
+                    rep.count("long_inputs_compared_with_the_limb_map");
+                    if hh != native(&bytes) {
+                        rep.violation("compact-hash / encoding differs from the injective limb map (long input)", &format!("compact hash of a {len}-byte input is not the Poseidon2 hash of its 8-byte-LE limb sequence"), json!({"len": len}));
+                    }
                 }
                 if len > cap && used > 4096 {
                     rep.violation("compact-hash / over-cap allocation", &format!("allocated {used} bytes before rejecting an over-cap input"), json!({"len": len}));
